@@ -1,6 +1,6 @@
 #!/bin/sh
 # Re-runs the reviewers' probe patches (reviews/*.diff): property-preserving ones must PASS (rc=0), defect-bearing ones
-# must be REPORTED (rc=1). Scratch worktrees only. ~70 minutes.
+# must be REPORTED (rc=1). Scratch worktrees only. ~100 minutes.
 HERE="$(cd "$(dirname "$0")/.." && pwd)"
 export VERIF_SHRINK_S=4
 bad=0
@@ -76,4 +76,17 @@ run 1 H_bs1_public_parse_counter_on_dataclass 2000 C11
 run 1 H_bs2b_dataclass_slots_plus_declared_counter 2000 C11
 run 0 H_bs2a_dataclass_slots_only 600 C11 C16
 run 0 H_probe_early_gap_detection - C12
+run 0 I_fa1_cli_fstat_fileno 6000 C19
+run 0 I_fa1b_cli_file_name_mode 6000 C19
+run 0 I_fa2_torn_file_exit_status 6000 C19
+run 0 I_fa3_status_line_with_ellipsis 6000 C19
+run 1 I_b1_verbose_only_crash - C19
+run 1 I_b3_cli_gzip_sniff - C19
+run 1 I_b2_pkgsplit_plus_stale_fill 3000 C10 C02
+run 1 I_c2_float_recv_size 1500 C02
+run 0 I_p1_select_before_recv 2000 C02 C10
+run 0 J_fa1_param_repr 1500 C11
+run 0 J_fa2_schema_version_from_uri 1000 C16
+run 1 J_bs1_cycle_guard_leaks_on_error - C11
+run 1 J_bs2_continuity_mod_8192 40000 C12
 exit $bad
